@@ -161,6 +161,8 @@ void TypedArgBase::assignValue( bool ignore_cardinality, const string& value,
       throw std::runtime_error( "argument '" + format::toString( mKey)
             + "' does not support invertion");
 
+   // the additional values of a value list are counted by assign() itself
+   mIgnoreCardinality = ignore_cardinality;
    assign( value, inverted);
    activateConstraints();
 
